@@ -4,6 +4,8 @@
 package cachex
 
 import (
+	"time"
+
 	"bytes"
 	"compress/gzip"
 	"context"
@@ -19,6 +21,8 @@ import (
 	"github.com/IrineSistiana/mosdns/v5/plugin/executable/sequence"
 	"github.com/miekg/dns"
 	"google.golang.org/protobuf/proto"
+
+	"verif/harness/hx"
 )
 
 type Plugin struct {
@@ -57,10 +61,32 @@ func (p *Plugin) Dump() ([]byte, error) {
 }
 
 // Load posts raw bytes to /load_dump and returns the HTTP status and body.
+// LoadHangs is the status Load reports when /load_dump does not return and the goroutine serving it is stuck in
+// mosdns code (see hx.HangVerdict); the body then holds its stack.
+const LoadHangs = -1
+
 func (p *Plugin) Load(b []byte) (int, string) {
 	rec := httptest.NewRecorder()
+	done := make(chan struct{})
+	go func() {
+		defer close(done)
+		p.serveLoad(rec, b)
+	}()
+	for {
+		select {
+		case <-done:
+			return rec.Code, rec.Body.String()
+		case <-time.After(20 * time.Second):
+		}
+		if hang, detail := hx.HangVerdict("cachex.(*Plugin).serveLoad", nil); hang {
+			return LoadHangs, "load_dump has not returned after 20 s; stuck:\n" + detail
+		}
+	}
+}
+
+//go:noinline
+func (p *Plugin) serveLoad(rec *httptest.ResponseRecorder, b []byte) {
 	p.api.ServeHTTP(rec, httptest.NewRequest("POST", "/load_dump", bytes.NewReader(b)))
-	return rec.Code, rec.Body.String()
 }
 
 func (p *Plugin) Flush() {
